@@ -1,20 +1,343 @@
-"""replay.py -- counterexample -> replay against the real C++ code (stub; filled in below)."""
-import os, json
+"""replay.py -- counterexample -> replay against the REAL C++ code (DESIGN.md 3.8), and known findings.
+
+A replay file (JSON) is self-contained: it names the property, the function, the configuration, the failed
+obligations, the inputs (bytes of every harness object) and carries the generated C++ program.  The program
+includes the real <avel/Avel.hpp> from /repo, calls the real function on the counterexample inputs and
+evaluates the contract's ensures clauses natively (the same spec functions, compiled as C++), with UBSan on.
+"""
+import os, re, json, subprocess, hashlib
 import pipeline as P
+import families
+from cxx2c import struct_order, Emitter
+
+SIZES = {'uint8_t': 1, 'int8_t': 1, '_Bool': 1, 'char': 1, 'uint16_t': 2, 'int16_t': 2, 'uint32_t': 4, 'int32_t': 4, 'float': 4,
+         'uint64_t': 8, 'int64_t': 8, 'double': 8, 'long long': 8, 'unsigned long long': 8, 'size_t': 8, 'm128': 16, 'm256': 32, 'm512': 64}
+
+
+def sizeof(ct, structs):
+    m = re.match(r'^(.*)\[(\d+)\]$', ct)
+    if m:
+        return sizeof(m.group(1), structs) * int(m.group(2))
+    if ct.endswith('*'):
+        return 8
+    if ct in SIZES:
+        return SIZES[ct]
+    if ct in structs:
+        # all AVEL records are naturally aligned aggregates of equal-alignment members; compute with padding
+        off = 0
+        al = 1
+        for f, t in structs[ct]:
+            a = alignof(t, structs)
+            off = (off + a - 1) // a * a
+            off += sizeof(t, structs)
+            al = max(al, a)
+        return (off + al - 1) // al * al
+    raise ValueError('sizeof ' + ct)
+
+
+def alignof(ct, structs):
+    m = re.match(r'^(.*)\[(\d+)\]$', ct)
+    if m:
+        return alignof(m.group(1), structs)
+    if ct.endswith('*'):
+        return 8
+    if ct in ('m128', 'm256', 'm512'):
+        return 8      # the C twin is struct { uint64_t q[] }
+    if ct in SIZES:
+        return SIZES[ct]
+    if ct in structs:
+        return max(alignof(t, structs) for f, t in structs[ct])
+    raise ValueError('alignof ' + ct)
+
+
+def to_bytes(val, ct, structs):
+    """flatten a CBMC trace value (as produced by pipeline._val) into little-endian bytes of C type ct"""
+    n = sizeof(ct, structs)
+    if val is None:
+        return bytes(n)
+    m = re.match(r'^(.*)\[(\d+)\]$', ct)
+    if m:
+        el = m.group(1)
+        out = b''
+        vals = val if isinstance(val, list) else []
+        for i in range(int(m.group(2))):
+            out += to_bytes(vals[i] if i < len(vals) else None, el, structs)
+        return out
+    if ct in ('m128', 'm256', 'm512'):
+        q = (val or {}).get('q') if isinstance(val, dict) else None
+        return to_bytes(q, 'uint64_t[%d]' % (n // 8), structs)
+    if ct in structs:
+        out = b''
+        for f, t in structs[ct]:
+            a = alignof(t, structs)
+            while len(out) % a:
+                out += b'\0'
+            out += to_bytes(val.get(f) if isinstance(val, dict) else None, t, structs)
+        while len(out) < n:
+            out += b'\0'
+        return out
+    if isinstance(val, dict) and val.get('bin'):
+        b = val['bin']
+        iv = int(b, 2)
+        return iv.to_bytes(n, 'little')
+    return bytes(n)
+
+
+def merge_assignments(var, assigns, ct, structs):
+    """assignments is {lhs: value}; whole-object assignment plus later member-wise updates"""
+    base = assigns.get(var)
+    data = bytearray(to_bytes(base, ct, structs))
+    # member-wise assignments like a0.content.q[1] are rare (harness objects are assigned as a whole); ignored if absent
+    return bytes(data)
+
+
+CXX_OF = {'_Bool': 'bool', 'long long': 'long long', 'unsigned long long': 'unsigned long long', 'size_t': 'std::size_t'}
+
+
+def cxx_type(ct, structs):
+    t = families.T(ct, structs)
+    c = t.cxx()
+    if c:
+        return c
+    m = re.match(r'^Denom_(\w+)$', ct)
+    if m:
+        inner = m.group(1)
+        if inner in families.ELEM:
+            return 'avel::Denominator<%s>' % families.CXX_ELEM[inner]
+        return 'avel::Denominator<%s>' % cxx_type(inner, structs)
+    m = re.match(r'^Div_(\w+)$', ct)
+    if m:
+        inner = m.group(1)
+        if inner in families.ELEM:
+            return 'avel::div_type<%s>' % families.CXX_ELEM[inner]
+        return 'avel::div_type<%s>' % cxx_type(inner, structs)
+    m = re.match(r'^Arr_(\w+)_(\d+)$', ct)
+    if m:
+        inner = m.group(1)
+        el = families.CXX_ELEM.get(inner) or ('bool' if inner == 'b' else cxx_type(inner, structs))
+        return 'std::array<%s, %s>' % (el, m.group(2))
+    if ct in CXX_OF:
+        return CXX_OF[ct]
+    if ct in families.CT2ELEM:
+        return families.CXX_ELEM[families.CT2ELEM[ct]]
+    if ct.endswith('*'):
+        return cxx_type(ct[:-1], structs) + '*'
+    return ct
+
+
+def old_subst(expr):
+    """rewrite __CPROVER_old(e) into e over the pre-state copies"""
+    out = ''
+    i = 0
+    key = '__CPROVER_old('
+    while True:
+        j = expr.find(key, i)
+        if j < 0:
+            out += expr[i:]
+            break
+        out += expr[i:j]
+        k = j + len(key)
+        depth = 1
+        while depth:
+            if expr[k] == '(':
+                depth += 1
+            elif expr[k] == ')':
+                depth -= 1
+            k += 1
+        inner = expr[j + len(key):k - 1]
+        inner = re.sub(r'\bthis\b', 'self_pre', inner)
+        inner = re.sub(r'\(\*(\w+)\)', lambda m: '(*%s_pre)' % m.group(1) if not m.group(1).startswith('self_') else m.group(0), inner)
+        out += '(' + inner + ')'
+        i = k
+    return re.sub(r'\bthis\b', 'self_post', out)
+
+
+def hexbytes(b):
+    return ', '.join('0x%02x' % x for x in b) or '0'
+
+
+def gen_program(fn, contract, db, inputs_bytes):
+    S = db['structs']
+    lines = ['// generated replay: real AVEL code on a verifier counterexample',
+             '#include <avel/Avel.hpp>', '#include <avel/Aligned_allocator.hpp>', '#include <cstring>', '#include <cstdio>', '#include <cstdint>',
+             '#include <cmath>', '#include <array>',
+             '#define AVM_NATIVE 1', '#include "avm_native.h"', '#include "spec_int.h"', '#include "spec_float.h"']
+    # C twins of the records
+    for nm in struct_order(S):
+        lines.append('typedef struct %s { %s } %s;' % (nm, ' '.join(Emitter.decl(t, f) + ';' for f, t in S[nm]), nm))
+    lines.append('template<class A, class B> static void cp(A& a, const B& b) { static_assert(sizeof(A) == sizeof(B), "twin size"); std::memcpy(&a, &b, sizeof(A)); }')
+    lines.append('int main() {')
+    lines.append('  int fails = 0;')
+    callargs = {}
+    has_this = fn['kind'] in ('method', 'conv') and not fn.get('static')
+    if has_this:
+        ct = fn['owner']
+        b = inputs_bytes.get('self_obj', bytes(sizeof(ct, S)))
+        lines.append('  static const unsigned char self_b[] = {%s};' % hexbytes(b))
+        lines.append('  %s self_real; std::memcpy(&self_real, self_b, sizeof self_real);' % cxx_type(ct, S))
+        lines.append('  %s self_pre_o; std::memcpy(&self_pre_o, self_b, sizeof self_pre_o); %s* self_pre = &self_pre_o;' % (ct, ct))
+        callargs['this'] = 'self_real'
+    for i, p in enumerate(fn['params']):
+        ct = p['ctype'][:-1] if p['ref'] else p['ctype']
+        var = 'a%d_obj' % i if p['ref'] else 'a%d' % i
+        b = inputs_bytes.get(var, bytes(sizeof(ct, S)))
+        lines.append('  static const unsigned char a%d_b[] = {%s};' % (i, hexbytes(b)))
+        lines.append('  %s a%d_real; std::memcpy(&a%d_real, a%d_b, sizeof a%d_real);' % (cxx_type(ct, S), i, i, i, i))
+        if p['ref']:
+            lines.append('  %s %s_pre_o; std::memcpy(&%s_pre_o, a%d_b, sizeof(%s)); %s* %s_pre = &%s_pre_o;' % (ct, p['name'], p['name'], i, ct, ct, p['name'], p['name']))
+            lines.append('  %s %s_post_o; %s* %s = &%s_post_o;' % (ct, p['name'], ct, p['name'], p['name']))
+        else:
+            lines.append('  %s %s; std::memcpy(&%s, a%d_b, sizeof(%s));' % (ct, p['name'], p['name'], i, ct))
+        callargs[str(i)] = 'a%d_real' % i
+    call = contract.cxx
+    call = call.replace('{this}', callargs.get('this', ''))
+    for k, v in callargs.items():
+        call = call.replace('{%s}' % k, v)
+    for i, ta in enumerate(fn.get('targs', [])):
+        call = call.replace('{T%d}' % i, str(ta))
+    rct = fn['ret'][:-1] if fn.get('ret_ref') else fn['ret']
+    if fn['ret'] == 'void':
+        lines.append('  %s;' % call)
+    elif fn.get('ret_ref'):
+        lines.append('  auto& ret_real = %s;' % call)
+        lines.append('  bool ret_is_this = %s;' % ('(&ret_real == &self_real)' if has_this else 'false'))
+    else:
+        lines.append('  auto ret_real = %s;' % call)
+        lines.append('  %s ret_c; cp(ret_c, ret_real);' % rct)
+    if has_this:
+        lines.append('  %s self_post_o; cp(self_post_o, self_real); %s* self_post = &self_post_o;' % (fn['owner'], fn['owner']))
+    for i, p in enumerate(fn['params']):
+        if p['ref']:
+            lines.append('  cp(%s_post_o, a%d_real);' % (p['name'], i))
+    for lab, e in contract.ensures:
+        ee = old_subst(e)
+        if fn.get('ret_ref'):
+            ee = ee.replace('__CPROVER_return_value == self_post', 'ret_is_this')
+        ee = ee.replace('__CPROVER_return_value', 'ret_c')
+        lines.append('  if (!(%s)) { std::printf("ENSURES FAILED: %s\\n"); fails++; }' % (ee, lab.replace('"', "'").replace('%', '%%')))
+    lines.append('  if (avm_native_assert_failures) { fails += avm_native_assert_failures; }')
+    lines.append('  std::printf(fails ? "REPLAY: property violated on the real code (%d failing clause(s))\\n" : "REPLAY: real code satisfies the contract on this input\\n", fails);')
+    lines.append('  return fails ? 1 : 0;')
+    lines.append('}')
+    return '\n'.join(lines) + '\n'
+
+
+def build_and_run(program, cfg, workdir, ubsan=True):
+    os.makedirs(workdir, exist_ok=True)
+    src = os.path.join(workdir, 'replay.cpp')
+    exe = os.path.join(workdir, 'replay')
+    open(src, 'w').write(program)
+    flags = [f for f in P.cfg_flags(cfg)]
+    outs = []
+    built = 0
+    # two builds of the same program: g++ -O1 (AVEL's primary compiler; value-level effects of UB show up here) and
+    # clang++ -O1 (its UBSan sees promoted-operand overflows that GCC folds away before instrumenting)
+    for cc in ('g++', 'clang++'):
+        cmd = [cc] + flags + ['-O1', '-g', '-D_Bool=bool', '-I' + os.path.join(P.REPO, 'include'), '-I' + os.path.join(P.ROOT, 'models'),
+                              '-I' + os.path.join(P.ROOT, 'spec'), '-Wno-attributes', '-fno-strict-aliasing', '-w']
+        if ubsan:
+            cmd += ['-fsanitize=undefined']
+        cmd += [src, '-o', exe]
+        r = subprocess.run(cmd, capture_output=True, text=True, timeout=600)
+        if r.returncode != 0:
+            outs.append('[%s build failed]\n%s' % (cc, (r.stderr or r.stdout)[-1500:]))
+            continue
+        built += 1
+        try:
+            r = subprocess.run([exe], capture_output=True, text=True, timeout=60)
+        except subprocess.TimeoutExpired:
+            return {'status': 'confirmed', 'output': '[%s] replay did not terminate within 60 s (hang)' % cc, 'exit': None}
+        out = (r.stdout + r.stderr)[-3000:]
+        outs.append('[%s -O1 -fsanitize=undefined]\n%s' % (cc, out))
+        if r.returncode != 0 or 'runtime error' in out:
+            return {'status': 'confirmed', 'output': '\n'.join(outs), 'exit': r.returncode}
+    if not built:
+        return {'status': 'build-failed', 'output': '\n'.join(outs)}
+    return {'status': 'not-reproduced', 'output': '\n'.join(outs), 'exit': 0}
+
 
 def match_known(ob, known):
+    """a failing obligation matches an open finding when function family / element types / configuration agree and
+    every failing obligation is one the finding lists"""
+    fp = [p for p in ob.result['props'] if p['status'] != 'SUCCESS']
+    for k in known:
+        if k.get('family') and k['family'] != ob.contract.family:
+            continue
+        if k.get('function_regex') and not re.search(k['function_regex'], ob.ident()):
+            continue
+        if k.get('configurations') and not set(ob.cfgs) <= set(k['configurations']):
+            continue
+        pats = k.get('obligation_regex') or []
+        ok = all(any(re.search(pt, (p.get('name') or '') + ' ' + (p.get('desc') or '')) for pt in pats) for p in fp)
+        if not ok:
+            continue
+        # the failing input must lie inside the finding's input predicate (checked by the residual obligation, see props.py)
+        return k
     return None
+
 
 def record_and_replay(prop, ob, db, sc):
     d = os.path.join(P.ROOT, 'replays', prop)
     os.makedirs(d, exist_ok=True)
-    path = os.path.join(d, '%s__%s.json' % (ob.cname[:80], ob.cfgs[0]))
+    tag = hashlib.sha256(ob.cname.encode()).hexdigest()[:8]
+    path = os.path.join(d, '%s_%s__%s.json' % (re.sub(r'\W', '_', ob.fn['name'])[:30], tag, ob.cfgs[0]))
     fp = [p for p in ob.result['props'] if p['status'] != 'SUCCESS']
-    json.dump({'property': prop, 'function': ob.ident(), 'cname': ob.cname, 'configurations': ob.cfgs,
-               'failed_obligations': [{'name': p['name'], 'desc': p['desc'], 'inputs': p.get('inputs'), 'trace_tail': p.get('trace_tail')} for p in fp]},
-              open(path, 'w'), indent=1)
-    return {'status': 'unreplayed', 'path': path}
+    S = db['structs']
+    rec = {'property': prop, 'function': ob.ident(), 'cname': ob.cname, 'source': '%s:%s' % (ob.fn.get('file'), ob.fn.get('line')),
+           'configurations': ob.cfgs, 'configuration_replayed': ob.cfgs[0],
+           'failed_obligations': [{'name': p['name'], 'description': p['desc'], 'cbmc_trace_tail': p.get('trace_tail')} for p in fp],
+           'contract': ob.contract.clauses()}
+    inputs = None
+    for p in fp:
+        if p.get('inputs'):
+            inputs = p['inputs']
+            break
+    status = 'no-input'
+    if inputs is not None and ob.contract.cxx:
+        try:
+            ib = {}
+            fn = ob.fn
+            if fn['kind'] in ('method', 'conv') and not fn.get('static') and 'self_obj' in inputs:
+                ib['self_obj'] = merge_assignments('self_obj', inputs['self_obj'], fn['owner'], S)
+            for i, prm in enumerate(fn['params']):
+                var = 'a%d_obj' % i if prm['ref'] else 'a%d' % i
+                ct = prm['ctype'][:-1] if prm['ref'] else prm['ctype']
+                if var in inputs:
+                    ib[var] = merge_assignments(var, inputs[var], ct, S)
+            rec['inputs_hex'] = {k: v.hex() for k, v in ib.items()}
+            rm = inputs.get('__CPROVER_rounding_mode', {}).get('__CPROVER_rounding_mode', {}).get('data')
+            rec['rounding_mode'] = rm
+            prog = gen_program(fn, ob.contract, db, ib)
+            rec['program'] = prog
+            res = build_and_run(prog, ob.cfgs[0], sc.path('replay-' + tag))
+            rec['replay'] = res
+            status = res['status']
+        except (ValueError, KeyError) as e:
+            rec['replay'] = {'status': 'generator-error', 'output': str(e)}
+            status = 'no-input'
+    rec['status'] = status
+    json.dump(rec, open(path, 'w'), indent=1)
+    if status == 'build-failed':
+        status = 'no-input'
+    return {'status': status, 'path': path}
+
 
 def replay_file(path):
-    print(open(path).read())
-    return 0
+    rec = json.load(open(path))
+    print('property %s  function %s  configuration %s' % (rec['property'], rec['function'], rec.get('configuration_replayed')))
+    for f in rec['failed_obligations']:
+        print('failed obligation: %s -- %s' % (f['name'], f['description']))
+    if 'program' not in rec:
+        print('no failing input was extracted for this violation; verifier output:')
+        for f in rec['failed_obligations']:
+            for l in (f.get('cbmc_trace_tail') or [])[-15:]:
+                print('   ', l)
+        return 1
+    sc = P.Scratch('replay')
+    try:
+        res = build_and_run(rec['program'], rec['configuration_replayed'], sc.path('r'))
+        print(res['output'])
+        print('replay status: ' + res['status'])
+        return 1 if res['status'] == 'confirmed' else (2 if res['status'] == 'build-failed' else 0)
+    finally:
+        sc.cleanup()
